@@ -19,6 +19,9 @@ EXPECT = {   # settled named outputs for the values written in the corpus source
     "cond": {"r": 5, "q": 7},
     "merge": {"twice": 700},
     "bundle": {"s": 4, "an": 1},
+    "fan-proj": {"u": 462},
+    "fan-proj-items": {"u": 132},
+    "same-name-chain": {"b": 72},
 }
 
 
@@ -37,7 +40,7 @@ def behaviour(bp):
             if len(out[name]) == 1:
                 out[name] = list(out[name].values())[0]
     return out
-QUICK_PROGS = ["arith", "cond", "bundle", "cell", "latch-sr", "entity"]
+QUICK_PROGS = ["arith", "cond", "cell", "latch-sr", "entity", "fan-proj"]
 
 
 def decode(text, as_json):
@@ -72,6 +75,42 @@ def completeness_problems(bp):
                 if v != 0 and (len(fs) != 1 or fs[0].get("count") != v):
                     probs.append(("constant combinator does not hold its labelled value", wt[:40]))
     return probs
+
+
+def plan_wire_problems(plan, bp_obj, decoded):
+    """every wire of the compiler's LayoutPlan must be present (as connectivity) in the decoded text and vice
+    versa.  Plan entity ids are mapped to entity numbers through the in-memory Blueprint (entity.id, in order)."""
+    from fv import geometry
+    idmap = {}
+    for i, e in enumerate(bp_obj.entities):
+        idmap[getattr(e, "id", None)] = i + 1
+    names = {e["entity_number"]: e["name"] for e in decoded["entities"]}
+
+    def conn(num, side, colour):
+        dual = names.get(num) in geometry.FOUR_CONN
+        base = 3 if (dual and side == "output") else 1
+        return base + (0 if colour == "red" else 1)
+    dec = Circuit.__new__(Circuit)
+    dec.parent = {}
+    for a, ca, b, cb in decoded.get("wires", []) or []:
+        if ca < 5 and cb < 5:
+            dec._union((a, ca), (b, cb))
+    pl = Circuit.__new__(Circuit)
+    pl.parent = {}
+    probs = []
+    for w_ in plan.wire_connections:
+        a, b = idmap.get(w_.source_entity_id), idmap.get(w_.sink_entity_id)
+        if a is None or b is None:
+            probs.append(("planned wire to an entity that is not in the blueprint", w_.source_entity_id, w_.sink_entity_id))
+            continue
+        ea, eb = (a, conn(a, w_.source_side, w_.wire_color)), (b, conn(b, w_.sink_side, w_.wire_color))
+        pl._union(ea, eb)
+        if dec._find(ea) != dec._find(eb):
+            probs.append(("planned wire missing from the emitted text", names.get(a), w_.source_side, names.get(b), w_.sink_side, w_.wire_color))
+    for a, ca, b, cb in decoded.get("wires", []) or []:
+        if ca < 5 and cb < 5 and pl._find((a, ca)) != pl._find((b, cb)):
+            probs.append(("emitted wire that joins two planned networks", names.get(a), ca, names.get(b), cb))
+    return probs[:6]
 
 
 class C07(core.Check):
@@ -113,6 +152,7 @@ class C07(core.Check):
         n = 0
         planned = {}
         pbp_cache = {}
+        plan_cache = {}
         planned_beh = {}
         seen_forms = {}
         with tempfile.TemporaryDirectory() as td:
@@ -164,10 +204,15 @@ class C07(core.Check):
                     harness.compile_src(src, optimize=not noopt, poles="medium" if poles else None)
                     pbp = harness.LAST["blueprint"].to_dict(version=(2, 0))["blueprint"]
                     pbp_cache[key] = pbp
+                    plan_cache[key] = (harness.LAST["plan"], harness.LAST["blueprint"])
                     planned[key] = canon.canonical(pbp)
                 d, form = canon.canonical(bp)
                 if d != planned[key][0]:
                     bad.append((tag, ("differs from the planned circuit", canon.explain_diff(planned[key][1], form))))
+                else:
+                    wp = plan_wire_problems(plan_cache[key][0], plan_cache[key][1], bp)
+                    if wp:
+                        bad.append((tag, ("wires differ from the layout plan", wp)))
                 seen_forms.setdefault(key, set()).add(d)
                 # executing the decoded text gives the behaviour of the planned circuit: every anchor reads the same
                 beh = behaviour(bp)
